@@ -7,7 +7,7 @@
    not yet covered by a theorem are decided by the implementation <-> specification <->
    hardware differential run only (listed as unproved_forms in the evidence). *)
 From Coq Require Import ZArith Bool List.
-From AxV Require Import Bits Outcome Codes Iced State Rt Mem Trace Exec ExecP FrameTac FrameP ByteStore MemP RegFile RegsP ISA CodeSem IsaP OperandP RmP NoCrashP StepCrashP.
+From AxV Require Import Bits Outcome Codes Iced State Rt Mem Trace Exec ExecP FrameTac FrameP ByteStore MemP RegFile RegsP ISA CodeSem IsaP OperandP RmP AluRmP AluMemP AluImmP Alu32P AluImm32P UnaryP Unary32P TestP AdcP MovImmP SetccP NoCrashP StepCrashP.
 From AxG Require Import Flags Regs Operand Helpers Dispatch Frame Unimpl I_add I_sub I_cmp I_and I_xor I_div.
 Local Open Scope Z_scope.
 
@@ -51,6 +51,40 @@ Theorem C19_alu64_regreg : forall c i s,
   (i_code i = C_And_rm64_r64 -> no_crash (fst (instr_and_rm64_r64 c i s))) /\
   (i_code i = C_Xor_rm64_r64 -> no_crash (fst (instr_xor_rm64_r64 c i s))).
 Proof. exact alu64_regreg_no_crash. Qed.
+
+(* every refinement predicate of C01/C02/C06 implies "Ok or Err": each of the 110+ forms proved to
+   refine the specification is thereby proved never to panic or exhaust fuel, in either build
+   configuration, on any state satisfying its theorem's hypotheses *)
+Theorem C19_refinement_implies_no_crash : forall i s run,
+  (forall sm, refines i s sm run -> no_crash (fst run)) /\
+  (forall sm, refines32 i s sm run -> no_crash (fst run)) /\
+  (forall op, alu_refines i s op run -> no_crash (fst run)) /\
+  (forall op, alu32_refines i s op run -> no_crash (fst run)) /\
+  (forall op, rmw_refines i s op run -> no_crash (fst run)) /\
+  (forall op, rmwi_refines i s op run -> no_crash (fst run)) /\
+  (forall op, rmw32_refines i s op run -> no_crash (fst run)) /\
+  (forall op, un_refines i s op run -> no_crash (fst run)) /\
+  (forall op, un32_refines i s op run -> no_crash (fst run)) /\
+  (forall w, test_refines i s w run -> no_crash (fst run)) /\
+  (adc_refines i s run -> no_crash (fst run)) /\
+  (xori_refines i s run -> no_crash (fst run)) /\
+  (forall cc0, set_refines i s cc0 run -> no_crash (fst run)).
+Proof.
+  intros i s run. repeat split; intros.
+  - eapply refines_no_crash; eassumption.
+  - eapply refines32_no_crash; eassumption.
+  - eapply alu_refines_no_crash; eassumption.
+  - eapply alu32_refines_no_crash; eassumption.
+  - eapply rmw_refines_no_crash; eassumption.
+  - eapply rmwi_refines_no_crash; eassumption.
+  - eapply rmw32_refines_no_crash; eassumption.
+  - eapply un_refines_no_crash; eassumption.
+  - eapply un32_refines_no_crash; eassumption.
+  - eapply test_refines_no_crash; eassumption.
+  - eapply adc_refines_no_crash; eassumption.
+  - eapply xori_refines_no_crash; eassumption.
+  - eapply set_refines_no_crash; eassumption.
+Qed.
 
 (* ---- the step function (hand model Exec.v of src/state/execute.rs, tied by the `exec`
    correspondence) ---- *)
@@ -115,3 +149,4 @@ Print Assumptions C19_alu64_regreg.
 Print Assumptions C19_unimplemented_is_error.
 Print Assumptions C19_step_crash_sources.
 Print Assumptions C19_unsupported_is_error.
+Print Assumptions C19_refinement_implies_no_crash.
